@@ -255,9 +255,16 @@ func casesAttacks(c *caseCtx) {
 	concurrentQueries(c)
 	// eval.FindCapture / eval.FindPins
 	for _, s := range genStates(c, c.scale(300, 6000)) {
-		for k := 0; k < 4; k++ {
+		for k := 0; k < 8; k++ {
 			side := board.Color(c.r.Intn(2))
 			sq := board.Square(c.r.Intn(64))
+			if k >= 4 {
+				// targets on the back ranks (pawn capturers from the seventh / second rank)
+				sq = board.Square(c.r.Intn(8))
+				if k%2 == 0 {
+					sq += 56
+				}
+			}
 			var toks []string
 			for _, pl := range eval.FindCapture(s.pos, side, sq) {
 				toks = append(toks, fmt.Sprintf("%d:%d", pl.Piece, pl.Square))
